@@ -91,7 +91,7 @@ def _build(kind, project, res, off, extra, case):
         outside_res = project.find_module("outside_mod")
         return lambda: ModuleToPackage(project, outside_res).get_changes()
     if kind == "inline_outside_only_current":
-        return lambda: inline.create_inline(project, res, off).get_changes(remove=False, only_current=True)
+        return lambda: inline.create_inline(project, res, off).get_changes(only_current=True)
     if kind == "rename":
         return lambda: Rename(project, res, off).get_changes("zz_fresh")
     if kind == "rename_restricted":
@@ -381,13 +381,21 @@ def _evaluate_symlink_and_own_module(case, env, out):
     os.symlink(os.path.join(outside, "hooks.py"), os.path.join(root, "hooks.py"))
     os.symlink(os.path.join(outside, "plugins"), os.path.join(root, "plugins"))
     kw = [{}, {"ignored_resources": []}, {"ignored_resources": ["*.pyc"]}][variant]
-    project = Project(root, ropefolder=None, **kw)
+    # rope's own folder (default or custom name) holds a Python file that mentions the renamed name: it is rope's, not the
+    # project's, whatever the ignored_resources preference says
+    ropefolder = [".ropeproject", ".myrope", None][(case["restrict"] // 3) % 3]
+    if ropefolder:
+        fsmodel.write_tree(root, {ropefolder + "/extra.py": "from a import shared\nprint(shared)\n"})
+    project = Project(root, ropefolder=ropefolder, **kw)
     sub = {"kind": "symlink", "ignored_resources": kw.get("ignored_resources", "default")}
     try:
         before = fsmodel.snapshot(outside)
         out.evals += 1
         out.labels["symlink_scenario:variant%d" % variant] += 1
         listed = sorted(r.path for r in project.get_files())
+        if ropefolder and any(p.startswith(ropefolder + "/") for p in listed):
+            out.violation("C09:rope_folder_listed_as_project_files", "get_files() = %s with ropefolder=%r %s" % (listed, ropefolder, sub), dict(sub, ropefolder=ropefolder))
+            return
         if any(p.startswith("hooks") or p.startswith("plugins") for p in listed):
             out.violation("C09:symlink_to_outside_listed_as_project_file", "get_files() = %s with %s" % (listed, sub), sub)
             return
@@ -402,6 +410,9 @@ def _evaluate_symlink_and_own_module(case, env, out):
             out.refused += 1
         if fsmodel.snapshot(outside) != before:
             out.violation("C09:wrote_outside_root_through_symlink", "%s" % (sub,), sub)
+            return
+        if ropefolder and open(os.path.join(root, ropefolder, "extra.py")).read() != "from a import shared\nprint(shared)\n":
+            out.violation("C09:rope_folder_file_rewritten", "ropefolder=%r %s" % (ropefolder, sub), dict(sub, ropefolder=ropefolder))
             return
         # (2)
         out.evals += 1
